@@ -6,7 +6,7 @@ the optimal structure line and every member of all_dot_brackets.
 """
 import string
 
-from core import call_timed, Result, call, parallel_map
+from core import history_probe, call_timed, Result, call, parallel_map
 from gen import g1
 
 OPEN = "([{<" + string.ascii_uppercase
@@ -192,6 +192,7 @@ def run(ctx):
             pre = tuple(ctx.rng.sample(["without_isolated", "without_pseudoknots", "elements", "pairs"], ctx.rng.randint(1, 2)))
         cases.append((seq, pairs, components_ok(pairs, limit), want_opt, levels, pre))
     outs = parallel_map(real, cases)
+    history_probe(ctx, res, real, cases, "encoders")
     D = ctx.driver
     reqs = []
     idx = []
